@@ -137,4 +137,37 @@ def readBack (asKV : Bytes → Bytes) (tagLine : Bytes) (maxRec lim : Nat) (next
 /-- what the property demands of one stored event when it comes back -/
 def returned (asKV : Bytes → Bytes) (tagLine : Bytes) (e : Event) : WEvent := ⟨e.ts, e.msg, tagLine, asKV e.fields⟩
 
+/-! ## a held cursor that is repositioned (`LogEventIterator` above the journal iterator) -/
+
+/-- `model.LogEventIterator`'s own state: `st == 1` with the decoded event in `le` -/
+structure LeiSt where
+  kept : Option Event := none
+deriving DecidableEq, Repr
+
+/-- `LogEventIterator.Get` with the journal iterator underneath standing at record `l`: the early return on a kept event; otherwise
+fetch + `Unmarshal` — and, if the source memoises (regenerated fact `leiKeepsNoEventAcrossCalls = false`: `lei.st = 1` after a
+successful decode), the event is kept for the following calls -/
+def leiGet (maxRec : Nat) (store : List Bytes) (l : Nat) (s : LeiSt) : LeiSt × Option Event :=
+  match s.kept with
+  | some e => (s, some e)
+  | none =>
+    match fetchDecode maxRec store [l] with
+    | some [e] => (if Generated.C01.leiKeepsNoEventAcrossCalls then s else { kept := some e }, some e)
+    | _ => (s, none)
+
+/-- `LogEventIterator.Next` -/
+def leiNext (_ : LeiSt) : LeiSt := {}
+
+/-- a held cursor is repositioned (`cursor.ApplyState`: `SetPos` on the JOURNAL iterator, a `SetBackward` flip passed through): the
+LogEventIterator above it is not told -/
+def leiRepositioned (s : LeiSt) : LeiSt := s
+
+/-- one page of at most `lim` events from label `l` on, labels `l, l+1, …` (the un-ranged iterator over a quiescent journal) -/
+def leiPage (maxRec : Nat) (store : List Bytes) : Nat → Nat → LeiSt → List Event × LeiSt
+  | 0, _, s => ([], s)
+  | lim+1, l, s =>
+    match leiGet maxRec store l s with
+    | (s1, some e) => let r := leiPage maxRec store lim (l + 1) (leiNext s1); (e :: r.1, r.2)
+    | (s1, none) => ([], s1)
+
 end Logrange.E2E
